@@ -335,4 +335,4 @@ LEVEL_NOTE = (
     "Trusted: the reference model (sim/models/reader_model.py, written from the documented rules), Python's "
     "cp1252 codec. Negative length arguments are outside the property and not generated."
 )
-TECHNIQUE = "deterministic seeded history simulation vs. reference model (end-of-chunk/data over-reads as the fault dimension)"
+TECHNIQUE = "deterministic seeded history simulation vs. reference model (end-of-chunk/data over-reads as the fault dimension); two caller threads under a seeded line-level scheduler"
